@@ -154,9 +154,14 @@ def norm_case(draw, tier="quick"):
     shape = draw(gen.shape2(1, 16))
     cplx = draw(st.booleans())
     a = draw(gen.complex_array(shape, maxmag=1e3)) if cplx else draw(gen.real_array(shape, -1e3, 1e3))
-    form = draw(st.sampled_from(["array", "array", "int", "list"]))
+    form = draw(st.sampled_from(["array", "array", "int", "list", "narrow"]))
     if form != "array" and not cplx:
         a = np.round(a).astype(np.int64)
+    if form == "narrow":
+        # amplitudes stored in a narrow type (8/16-bit images, float32): the same numbers
+        dt = draw(st.sampled_from(["uint8", "int8", "int16", "uint16", "float32"]))
+        lim = {"uint8": 255, "int8": 127, "int16": 32767, "uint16": 65535, "float32": 1000}[dt]
+        a = (np.clip(np.round(np.abs(a.real) if dt.startswith("u") else a.real), -lim, lim)).astype(dt)
     return {"a": a, "power": draw(gen.pos_log(1e-6, 1e6)), "default": draw(st.sampled_from([False, False, True])),
             "form": form}
 
@@ -178,14 +183,18 @@ def normalize_power(case, ctx):
     ctx.tag("form:" + case.get("form", "array") + ("/" + a.dtype.kind))
     with lentil_call("C05.normalize", "normalize_power"):
         out = lentil.normalize_power(arg) if case["default"] else lentil.normalize_power(arg, p)
-    got = float(np.sum(np.abs(out) ** 2))
-    if abs(got - p) > 1e-12 * p:
+    out = np.asarray(out)
+    # a float32 input yields a float32 result: the power is then only defined to that precision
+    rel = 1e-12 if out.dtype.itemsize >= 8 or out.dtype.kind not in "fc" else 64 * float(np.finfo(out.dtype).eps)
+    got = float(np.sum(np.abs(out.astype(complex if np.iscomplexobj(out) else float)) ** 2))
+    if abs(got - p) > rel * p:
         raise Violation("C05.normalize.power", f"power {got} != target {p}")
     if not np.array_equal(a, a0):
         raise Violation("C05.normalize.input_mutated", "normalize_power modified its input")
     # direction preserved: out is a positive multiple of a
-    k = np.sqrt(p / np.sum(np.abs(a0) ** 2))
-    if cm.max_abs(out - a0 * k) > 1e-12 * cm.max_abs(a0 * k):
+    a0f = a0.astype(complex if np.iscomplexobj(a0) else float)
+    k = np.sqrt(p / np.sum(np.abs(a0f) ** 2))
+    if cm.max_abs(out - a0f * k) > rel * cm.max_abs(a0f * k):
         raise Violation("C05.normalize.shape", "normalize_power changed more than the scale")
 
 
